@@ -13,6 +13,8 @@ S2  every (state, call) pair of the state graph (thorough: every transition) is 
     Application subclass (SimApp) that exercises application.py's own start/join/cancel
     logic.  Every case of MCResults is run through a real wrapper and the alignment rows,
     the order, the tree leaves and the sequence objects are compared with TLC's values.
+    A failed launch ends the run in CANCELLED; every public call (also the informational
+    getters get_command / get_stderr / file paths) is asked in every state, that one included.
     The history starts with the action "construct" (it may fail: the binary is asked for its
     version and is missing / of the wrong version / silent, or the arguments are refused) and
     the program may resist the signals it can catch.  specs/C20/MCOptions.tla: every order of
@@ -126,6 +128,10 @@ def _sim_class():
 
         @requires_state(AppState.FINISHED | AppState.JOINED)
         def get_stdout(self):
+            return "text"
+
+        @requires_state(AppState.FINISHED | AppState.JOINED)
+        def get_stderr(self):
             return "text"
 
         @requires_state(AppState.RUNNING | AppState.CANCELLED | AppState.FINISHED | AppState.JOINED)
@@ -504,8 +510,14 @@ class Harness:
                 out = str(code) if code >= 0 else "signal"   # Popen: -N = killed by signal N
             elif c == "get_stdout":
                 out = "text" if isinstance(a.get_stdout(), str) else "not-text"
+            elif c == "get_stderr":
+                out = "text" if isinstance(a.get_stderr(), str) else "not-text"
             elif c == "get_command":
                 out = "text" if isinstance(a.get_command(), str) else "not-text"
+            elif c == "get_info":
+                # the getters that are not bound to a state: they describe the wrapper object
+                vals = [a.get_input_file_path(), a.get_output_file_path(), a.get_seqtype()]
+                out = "text" if all(isinstance(v, str) for v in vals) else "not-text"
             elif c == "get_process":
                 p = a.get_process()
                 out = p if self.kind == "sim" else (self.proc_state() if p is self.app._process else "not-the-process")
@@ -608,6 +620,8 @@ class Harness:
         return "matrix_the_program_wrote" if vals == tool_matrix(len(self.inputs)) else f"other:{vals[:3]}"
 
     def has(self, c):
+        if c == "get_info" and self.kind == "sim":
+            return False   # Application itself has no getters outside the life cycle
         if c == "get_tree" and self.kind == "muscle5":
             return False
         if c == "get_dist" and self.kind not in ("clustalo", "sim"):
@@ -819,8 +833,6 @@ def compare(exp, oc, out, obs):
     elif oc == "ok" and out != exp["out"]:
         bad.append("out")
     for f in FIELDS:
-        if f == "app" and exp.get("failed"):
-            continue
         if obs[f] != exp[f]:
             bad.append(f)
     return bad
@@ -1033,7 +1045,7 @@ def exec_results(item):
 # --------------------------------------------------------------------------- S3 child
 CALLS = ["construct", "start", "join", "join_t", "join_T", "cancel", "state", "setter", "get_alignment",
          "get_order", "get_tree", "get_dist", "get_exit_code", "get_stdout", "get_command", "get_process",
-         "proc_exits", "proc_writes"]
+         "get_stderr", "get_info", "proc_exits", "proc_writes"]
 
 
 def gen_trace(item):
@@ -1067,6 +1079,8 @@ def gen_trace(item):
                 continue  # would block forever / for the whole long timeout
             if c == "join_t" and waits and proc == "blocked":
                 continue  # a race the model does not decide
+            if c == "get_command" and tool["launch"] == "badopt" and app not in ("NONE", "CREATED"):
+                continue  # Dom_CommandText: the caller supplied an option that is not text
             progress({"kind": kind, "tool": tool, "c": c, "done": [e["c"] for e in events]})
             oc, out = h.do(c)
             # an exit is expected after cancel / timeout / evaluated join
@@ -1075,8 +1089,8 @@ def gen_trace(item):
             ev = {"c": c, "tool": tool, "oc": oc, "out": out if oc == "ok" else ""}
             ev.update(obs)
             events.append(ev)
-            if c in ("start", "construct") and oc != "ok":
-                break  # refused construction / failed launch: nothing further is specified
+            if c == "construct" and oc != "ok":
+                break  # refused construction: there is no object, nothing further can be called
             if oc == "Hang":
                 break  # already a disagreement; further calls would only hang again
     finally:
@@ -1163,7 +1177,8 @@ def run(ctx):
         "the short timeout is 0.03 s while the child is alive and 5 s once it has exited (so that machine load cannot decide the outcome); it is not used on a program that waits for a reader (a race the model does not decide)",
         "a call that has not returned after 20 s although the program is not hanging is recorded as outcome 'Hang'",
         "a program that announced (marker file) more output than a pipe holds counts as 'blocked' while it is alive",
-        "after a failed launch only the clean-up obligations are specified, not the wrapper state",
+        "after a failed launch the wrapper is in the end state without results (CANCELLED) and every call is answered by the life cycle",
+        "Dom_CommandText: get_command() is not asked after the caller supplied an option that is not text (launch failure 'badopt')",
         "a killed child that is a zombie of the calling process counts as gone (not running)",
         "WebApp / BLAST (network) are covered only through Application's shared state logic (SimApp; small-volume behaviours only)",
         "Dom_Complete: result values are compared for runs whose program emitted every input exactly once",
@@ -1211,6 +1226,17 @@ def run(ctx):
         raise Vacuity("no refused construction in the model")
     if not any(s["tool"]["stop"] == "resists" and s["app"] == "CANCELLED" and s["proc"] == "exited" for s in states):
         raise Vacuity("no ended run of a signal-resisting program in the model")
+    # the ended run after a failed launch is a state of the life cycle like any other: every
+    # public call is asked there (Dom_CommandText: get_command not after a non-text option)
+    after_fail = {}
+    for (src, lab, _dst) in g.edges:
+        st = states[ids[src]]
+        if st["failed"] and st["app"] != "NONE":
+            after_fail.setdefault(st["tool"]["launch"], set()).add(dot.parse_label(lab)[1][0])
+    public = set(CALLS) - {"construct", "proc_exits", "proc_writes"}
+    if after_fail.get("missing") != public or after_fail.get("badopt") != public - {"get_command"}:
+        raise Vacuity(f"calls after a failed launch: {after_fail}")
+    ctx.cov["calls_after_failed_launch"] = {k: len(v) for k, v in after_fail.items()}
     ctx.cov["states_per_outcome"] = ocs
     gfile = os.path.join(d, "graph.json")
     succ = {}
@@ -1386,6 +1412,8 @@ def run(ctx):
     ctx.cov["s3_resisting_programs_ended_from_outside"] = sum(
         1 for t in traces if any(e["tool"]["stop"] == "resists" and e["c"] in ("cancel", "join_t")
                                  and e["oc"] in ("ok", "TimeoutError") and e["app"] == "CANCELLED" for e in t))
+    ctx.cov["s3_calls_after_failed_launch"] = sum(
+        len(t) - 1 - j for t in traces for j, e in enumerate(t) if e["c"] == "start" and e["oc"] == "Rejected")
     ctx.cov["s3_tools"] = len({json.dumps(it["tool"], sort_keys=True) for it in titems})
     ctx.sample({"s3_trace": traces[0][:3]} if traces else {})
 
@@ -1521,8 +1549,7 @@ def replay(record):
             oc, out = h.do(c)
             last = dict(h.observe(expect_proc=record["expected"].get("proc")), oc=oc, out=out, c=c)
         exp = record["expected"]
-        bad = [k for k in ("oc",) + FIELDS if k in exp and exp[k] != last.get(k)
-               and not (k == "app" and exp.get("failed"))]
+        bad = [k for k in ("oc",) + FIELDS if k in exp and exp[k] != last.get(k)]
         return {"last": last, "expected": exp, "mismatch": bool(bad), "bad": bad}
     finally:
         h.close()
@@ -1530,6 +1557,6 @@ def replay(record):
 
 MANIFEST = {
     "technique": "TLA+ life-cycle state machine (specs/C20) model-checked by TLC incl. liveness, plus TLA+ specifications of the result mapping (rows mapped back to the input order by header number) and of the class-specific options and results (distance matrix, guide trees: what the program wrote, for every order of every subset of the option setters); every (state, call) pair / transition replayed against the real wrappers with real child processes; TLC-generated result and option cases run through the real wrappers; recorded call sequences and recorded runs validated by TLC",
-    "level_text": "TLC explores the complete reachable state space of the wrapper life cycle (the construction, 15 public calls and two environment steps x 246 behaviours of the environment: refused construction (binary missing / wrong version / no version when asked, refused arguments), launch failure, row order, complete / truncated / garbage / no output, exit 0 / failing exit / death by SIGKILL, SIGTERM, SIGSEGV, output volume below / above the OS pipe size on STDOUT / STDERR, a program that dies on / resists the signals it can catch; closes at depth 6) and checks RunEndsClean, NoObjectNoResources, ResultsOnlyAfterJoin, ResultsOnlyOfSuccess, refusal-is-a-no-op, legal-iff-allowed and, under weak fairness, that a started program leaves its working phase and that a program waiting for a reader is ended by join. The graph of 23 core behaviours is executed against ClustalOmegaApp, MuscleApp, Muscle5App, MafftApp (real child processes of a fake tool whose progress the harness triggers) and a minimal Application subclass: quick covers every (state, call) pair on every class, thorough every transition; wrapper state, outcome class, child-process liveness (/proc), temporary files (a private temporary directory), working directory, number of clean-up runs and result values are compared after each call, the construction included. The result mapping is specified on values (MsaResults.tla) and checked for 2..101 (thorough ..120) sequences x 6 emission orders x length profiles x padding x sequence type, incl. alignments larger than a pipe. The class-specific results (MsaOptions.tla) are checked for every order of every subset of the option setters of each class (thorough: every sequence of up to 3 setters) x 3 (thorough 5) numbers of sequences x emission orders, the program writing known, distinguishable content into every output file it is asked for. Random longer call sequences and random runs (up to 125 sequences, random setter sequences, random caller matrices and trees) are validated by TLC against the same operators.",
-    "level_note": "The external programs are replaced by fixtures/bin/fake_msa; timing is controlled by trigger / marker files; a call that does not return within 20 s is the outcome Hang. Wrapper state is read from the private flag (the public query is its own action). After a failed launch or a refused construction only clean-up obligations are compared. A construction can only fail on the version answer for the classes that ask for it. Without full_matrix_calculation() the distance-matrix getter may refuse or hand out the program's matrix. Trusted: TLC, /proc/<pid>/stat for process liveness, the fake program's own copy of what it emitted (cross-checked against the specification's environment in S2), the fixture's known matrix / tree content.",
+    "level_text": "TLC explores the complete reachable state space of the wrapper life cycle (the construction, 17 public calls and two environment steps x 246 behaviours of the environment: refused construction (binary missing / wrong version / no version when asked, refused arguments), launch failure, row order, complete / truncated / garbage / no output, exit 0 / failing exit / death by SIGKILL, SIGTERM, SIGSEGV, output volume below / above the OS pipe size on STDOUT / STDERR, a program that dies on / resists the signals it can catch; closes at depth 6) and checks RunEndsClean, NoObjectNoResources, ResultsOnlyAfterJoin, ResultsOnlyOfSuccess, refusal-is-a-no-op, legal-iff-allowed and, under weak fairness, that a started program leaves its working phase and that a program waiting for a reader is ended by join. The graph of 23 core behaviours is executed against ClustalOmegaApp, MuscleApp, Muscle5App, MafftApp (real child processes of a fake tool whose progress the harness triggers) and a minimal Application subclass: quick covers every (state, call) pair on every class, thorough every transition; wrapper state, outcome class, child-process liveness (/proc), temporary files (a private temporary directory), working directory, number of clean-up runs and result values are compared after each call, the construction included. The result mapping is specified on values (MsaResults.tla) and checked for 2..101 (thorough ..120) sequences x 6 emission orders x length profiles x padding x sequence type, incl. alignments larger than a pipe. The class-specific results (MsaOptions.tla) are checked for every order of every subset of the option setters of each class (thorough: every sequence of up to 3 setters) x 3 (thorough 5) numbers of sequences x emission orders, the program writing known, distinguishable content into every output file it is asked for. Random longer call sequences and random runs (up to 125 sequences, random setter sequences, random caller matrices and trees) are validated by TLC against the same operators.",
+    "level_note": "The external programs are replaced by fixtures/bin/fake_msa; timing is controlled by trigger / marker files; a call that does not return within 20 s is the outcome Hang. Wrapper state is read from the private flag (the public query is its own action). After a failed launch the wrapper must be CANCELLED and every public call is asked again in that state (get_command not after a non-text option); after a refused construction there is no object and only the clean-up obligations are compared. A construction can only fail on the version answer for the classes that ask for it. Without full_matrix_calculation() the distance-matrix getter may refuse or hand out the program's matrix. Trusted: TLC, /proc/<pid>/stat for process liveness, the fake program's own copy of what it emitted (cross-checked against the specification's environment in S2), the fixture's known matrix / tree content.",
 }
